@@ -752,6 +752,51 @@ def check_infinite(ctx, case, r):
             ctx.fail('oracle', text, label, match_key=key)
 
 
+def site_factors(dense, term):
+    """the ordered product of the operators of `term`, each with its Jordan-Wigner string to the left, is a tensor product
+    over the sites: factor of site s = ordered product of (op if it acts on s, JW if it is fermionic and acts right of s)"""
+    lo, hi = min(k for _, k in term), max(k for _, k in term)
+    out = {}
+    for s_ in range(lo, hi + 1):
+        m = None
+        for name, k in term:
+            if k == s_:
+                f = dense.local(name, k)
+            elif s_ < k and dense.jw_needed(name, k):
+                f = dense.local('JW', s_)
+            else:
+                continue
+            m = f if m is None else m @ f
+        if m is not None:
+            out[s_] = m
+    return out
+
+
+def dense_terms_fast(dense, terms, infinite_cell=None):
+    """as dense_terms, one Kronecker product per term (fermionic terms here have an even number of fermionic operators, so
+    no string extends to the left of the term)"""
+    H = np.zeros((dense.D, dense.D), dtype=complex)
+    for t, st in terms:
+        shifts = [0]
+        if infinite_cell:
+            shifts = [k * infinite_cell for k in range(-6, dense.n // infinite_cell + 1)]
+        for sh in shifts:
+            tt = [(o, k + sh) for o, k in t]
+            if dense.inside([k for _, k in tt]):
+                fac = site_factors(dense, tt)
+                mats = [fac.get(k, np.eye(dense.dims[k - dense.geo.lo])) for k in range(dense.geo.lo, dense.geo.hi + 1)]
+                H = H + complex(*st) * dense.kron_list(mats)
+    return H
+
+
+def product_state_value(dense, term, vecs):
+    """<v|term|v> in the product state with local vectors vecs[site]"""
+    val = 1.0 + 0j
+    for s_, m in site_factors(dense, term).items():
+        val = val * np.vdot(vecs(s_), m @ vecs(s_))
+    return val
+
+
 def term_span(t):
     return max(k for _, k in t) - min(k for _, k in t)
 
@@ -770,27 +815,38 @@ def check_results(ctx, case, r):
     cell = None if finite else L
     probs = []
 
+    if not finite:
+        Lp = case.get('psi_L', L)
+        Lc = max(L, Lp)
+        local_vec = lambda k: np.array([complex(*x) for x in r['state'][k % Lp]])
+
+    def density(tl):
+        """sum of the terms starting in one period of (operator, state) in the product state, per site"""
+        dens = 0
+        for sh in range(0, Lc, L):
+            for t, st in tl:
+                sh0 = -(min(k for _, k in t) // L) * L + sh        # translate: the term starts in the first unit cell (+ sh)
+                dens += complex(*st) * product_state_value(dense, [(o_, k + sh0) for o_, k in t], local_vec)
+        return dens / Lc
+    cache = {}
+
     def terms_of(expr):
-        """(term list or None, dense operator on the window, true range) of an expression, from the documentation"""
+        """(dense operator on the window, true range, density in the product state or None) of an expression, from the documentation"""
         if isinstance(expr, str):
-            tl = case['operands'][expr]['terms']
-            return tl, dense_terms(dense, tl, infinite_cell=cell)[0], max(term_span(t) for t, _ in tl)
+            if expr not in cache:
+                tl = case['operands'][expr]['terms']
+                cache[expr] = (dense_terms_fast(dense, tl, infinite_cell=cell), max(term_span(t) for t, _ in tl), None if finite else density(tl))
+            return cache[expr]
         if expr[0] == 'add':
-            ta, da, ra = terms_of(expr[1])
-            tb, db, rb = terms_of(expr[2])
-            return (ta + tb if ta is not None and tb is not None else None), da + db, max(ra, rb)
+            da, ra, ea = terms_of(expr[1])
+            db, rb, eb = terms_of(expr[2])
+            return da + db, max(ra, rb), (None if ea is None or eb is None else ea + eb)
         if expr[0] == 'dagger':
-            ta, da, ra = terms_of(expr[1])
-            th = None
-            if ta is not None:
-                th = []
-                for t, st in ta:
-                    ht, hs = hc_term(kind, t, st)
-                    th.append([ht, hs])
-            return th, da.conj().T, ra
+            da, ra, ea = terms_of(expr[1])
+            return da.conj().T, ra, (None if ea is None else np.conj(ea))
         if expr[0] == 'plus_identity':
-            ta, da, ra = terms_of(expr[1])
-            return None, complex(*expr[2]) * np.eye(dense.D) + complex(*expr[3]) * da, ra
+            da, ra, ea = terms_of(expr[1])
+            return complex(*expr[2]) * np.eye(dense.D) + complex(*expr[3]) * da, ra, None
         raise ValueError(expr[0])
     for nm, (claimed, tag) in r['operand_max_range'].items():
         true_r = max(term_span(t) for t, _ in case['operands'][nm]['terms'])
@@ -799,16 +855,9 @@ def check_results(ctx, case, r):
                           % (nm, claimed, true_r)))
     refs = {}
     psi = mats.get('psi')
-    vec = None
-    if not finite:
-        Lp = case.get('psi_L', L)
-        vec = np.array([1.0 + 0j])
-        for k in range(N):
-            vec = np.kron(vec, np.array([complex(*x) for x in r['state'][k % Lp]]))
-        Lc = max(L, Lp)
     for nm, expr in case['results'].items():
         o = r['results'].get(nm, {})
-        tl, ref, true_r = terms_of(expr)
+        ref, true_r, dens = terms_of(expr)
         refs[nm] = ref
         desc = '%s = %s with max_range of the operands %s' % (nm, expr if len(str(expr)) < 90 else str(expr)[:90],
                                                              {k_: v_['range'] for k_, v_ in case['operands'].items()})
@@ -866,22 +915,10 @@ def check_results(ctx, case, r):
                 var = np.vdot(psi, ref @ phi) - ev ** 2
                 if abs(complex(*o['variance']) - var) > 1e-8 * scale ** 2:
                     probs.append(('C11:results:variance', '%s: variance = %s, dense <R^2> - <R>^2 = %s' % (desc, o['variance'], var)))
-        elif not finite and tl is not None:
-            dens = 0
-            for sh in range(0, Lc, L):
-                for t, st in tl:
-                    mn = min(k for _, k in t)
-                    sh0 = -(mn // L) * L            # translate so that the term starts in the first unit cell
-                    tt = [(o_, k + sh0 + sh) for o_, k in t]
-                    if dens is not None and max(k for _, k in tt) < N:
-                        dens += complex(*st) * np.vdot(vec, dense.product(tt) @ vec)
-                    else:
-                        dens = None
-            if dens is not None:
-                dens = dens / Lc
-                for q in ('expectation_value', 'expectation_value_mr', 'expectation_value_power', 'expectation_value_TM'):
-                    if q in o and abs(complex(*o[q]) - dens) > 1e-7 * scale:
-                        probs.append(('C11:results:' + q, '%s: %s = %s, density of the terms in the product state = %s' % (desc, q, o[q], dens)))
+        elif not finite and dens is not None:
+            for q in ('expectation_value', 'expectation_value_mr', 'expectation_value_power', 'expectation_value_TM'):
+                if q in o and abs(complex(*o[q]) - dens) > 1e-7 * scale:
+                    probs.append(('C11:results:' + q, '%s: %s = %s, density of the terms in the product state = %s' % (desc, q, o[q], dens)))
     for a, b in case['compare']:
         key = a + ':' + b
         if key not in r['is_equal'] or a not in refs or b not in refs:
@@ -1002,7 +1039,7 @@ def main(ctx):
     n_inf = ctx.pick(120, 1000)
     n_prop = ctx.pick(16, 120)
     n_ui = ctx.pick(150, 700)
-    n_res = ctx.pick(108, 900)
+    n_res = int(os.environ.get('C11_NRES', ctx.pick(108, 900)))
     if not ctx.proof.ok:
         n_res = int(n_res * 1.5)
     if not ctx.proof.ok:
